@@ -11,7 +11,9 @@ FILE = "compiler/src/ast/math_expr.rs"
 # (looser, tighter)
 ORDER = [("add_assign", "or"), ("or", "and"), ("xor", "and"), ("and", "lt"), ("and", "eq"), ("and", "neq"), ("and", "gte"), ("eq", "add"), ("lt", "add"), ("gt", "subtract"),
          ("eq", "binary_or"), ("binary_and", "add"), ("binary_xor", "add"), ("bitwise_ls", "add"), ("add", "multiply"), ("subtract", "multiply"), ("add", "divide"), ("add", "modulo"),
-         ("multiply", "not"), ("multiply", "unary_minus"), ("unary_minus", "callable"), ("unary_minus", "list_index"), ("unary_minus", "dot_chain"), ("not", "dot_chain")]
+         ("multiply", "not"), ("multiply", "unary_minus"), ("unary_minus", "callable"), ("unary_minus", "list_index"), ("unary_minus", "dot_chain"), ("not", "dot_chain"),
+         # `(x) or y` is a postfix form: it binds like a call / index, tighter than every prefix and binary operator (`2 * (x) or 5` is `2 * ((x) or 5)`)
+         ("multiply", "optional_or"), ("unary_minus", "optional_or"), ("not", "optional_or"), ("add", "optional_or"), ("multiply", "typeof")]
 SAME = [("add", "subtract"), ("multiply", "divide"), ("multiply", "modulo"), ("lt", "lte"), ("lt", "gt"), ("lt", "gte"), ("eq", "neq"), ("add_assign", "sub_assign"), ("add_assign", "mod_assign"),
         ("add_assign", "mul_assign"), ("add_assign", "div_assign")]
 
@@ -59,7 +61,7 @@ def build(repo):
             raise Undecided(f"PRATT_PARSER: operator {a if a not in lvl else b} not in the table")
         oid = f"C01.precedence.{a}-below-{b}"
         lines.append(f"//@ OBL {oid}\npub proof fn p_{a}_below_{b}() ensures {lvl[a]}int < {lvl[b]}int {{}}")
-        obls.append(Obl(oid, ["C01", "C15"], fn="PRATT_PARSER", desc=f"`{a}` binds looser than `{b}`"))
+        obls.append(Obl(oid, ["C01", "C15"] + (["C12"] if "optional_or" in (a, b) else []), fn="PRATT_PARSER", desc=f"`{a}` binds looser than `{b}`"))
     for a, b in SAME:
         if a not in lvl or b not in lvl:
             raise Undecided(f"PRATT_PARSER: operator {a if a not in lvl else b} not in the table")
@@ -70,6 +72,6 @@ def build(repo):
     return gen, obls, log
 
 
-UNITS = [VUnit("c01_precedence", ["C01", "C15"], "operator precedence table", build)]
+UNITS = [VUnit("c01_precedence", ["C01", "C15", "C12"], "operator precedence table", build)]
 UNITS[0].assumes = ["the expected order is the conventional one (`||` < `&&` < comparisons < `+ -` < `* / %` < unary < postfix), which is also what the pinned table has; associativity (all Left) is not checked",
                     "pest's PrattParser semantics (later .op() = higher precedence) trusted"]
